@@ -67,6 +67,8 @@ extern crate std;
 extern crate alloc;
 
 mod raw;
+#[cfg(feature = "verif-hooks")]
+pub use raw::VerifState;
 
 mod external_trait_impls;
 mod map;
